@@ -8,6 +8,7 @@ pub mod c18;
 pub mod c19;
 pub mod d;
 pub mod e;
+pub mod f;
 pub mod hostile;
 pub mod sess;
 pub mod transcript;
